@@ -299,6 +299,10 @@ class YAMLSpecification(Specification):
                     "A study specification MUST contain at least "
                     "one step in its workflow."
                 )
+            if not isinstance(self.study, list):
+                raise jsonschema.ValidationError(
+                    "The study block must be a list of steps."
+                )
 
             logger.debug(
                 "Verified that a study block exists. -- verifying " "steps."
